@@ -366,7 +366,7 @@ def check_cases(ctx, cases, label, report=True):
     if not cases:
         return []
     terms = [case_term(c, r) for c, r in zip(cases, results)]
-    shard = max(1, -(-len(terms) // 16))
+    shard = min(40, max(1, -(-len(terms) // 16)))
     failing, errors = eval_checks("C10cli", HEADER, CHECKS, terms, shard=shard)
     if errors:
         raise RuntimeError("coq evaluation failed: " + errors[0][1])
@@ -761,7 +761,7 @@ def check_units(ctx, units, label):
         ctx.tally(f"unit.{label}")
         ctx.tally("unit.tagged", sum(1 for t in tags if t[0] is not None))
         ctx.tally("unit.untagged", sum(1 for t in tags if t[0] is None))
-    shard = max(50, -(-len(terms) // 16))
+    shard = min(400, max(50, -(-len(terms) // 16)))
     failing, errors = eval_checks("C10unit", HEADER, {"L1": "U_L1", "L2": "U_L2", "NOLINKAPPL": "U_NOLINKAPPL"}, terms, shard=shard)
     if errors:
         raise RuntimeError("coq evaluation failed: " + errors[0][1])
